@@ -5,9 +5,10 @@
              the implementation's own ApplyUpdatesUpTo(t) on a deep copy of annotated parent pidx
              status 0 ok | 1 UpdateIndexOutOfRangeError
    codes: 1 model <> implementation (annotation result, or state after ApplyUpdatesUpTo);
-          2 the property fails on the observation (see [j2]); 0 did not parse. *)
+          2 the property fails on the observation (see [j2]); 3 osm.CommitInfoStart at run time differs
+          from the time.Date literal in the source (translator); 0 did not parse. *)
 From Coq Require Import ZArith List Bool.
-From Verif Require Import Base.Wire Annotate.Model Annotate.Case C11.Spec.
+From Verif Require Import Base.Wire Annotate.Model Annotate.Case Annotate.GenOk C11.Spec.
 Import ListNotations.
 Open Scope Z_scope.
 Open Scope wire_scope.
@@ -310,7 +311,8 @@ Definition check_main : P (list Z) :=
   i <- pinput ;; o <- poutcome ;; obs <- plist ptobs ;;
   let m := model_outcome i in
   let j1 := outcome_matches i m o && ((negb (oc_status o =? 0)) || forallb (tobs_matches i m) obs) in
-  ret (code_if j1 1 ++ code_if (j2 i o obs) 2)%list.
+  (* 3: the CommitInfoStart the implementation runs with is the one written in update.go *)
+  ret (code_if j1 1 ++ code_if (j2 i o obs) 2 ++ code_if (i_cis i =? commit_info_start) 3)%list.
 
 Definition check_case (t : toks) : list Z :=
   match parse_all (tag <- pint ;; if tag =? 1 then check_main else pfail) t with
